@@ -47,6 +47,16 @@ def run(ctx):
     bad = [(f, bb, p) for f, bb, p in PC.unchecked_calls(P) if _concerns(P, f, ("ProofOfPossession", "deserialize_signature", "serialize_signature"))]
     ctx.ob("E7.unchecked", "proof-of-possession decoders", not bad, "unchecked point decoders on the way of a proof of possession: %s" % [(f.key, p) for f, bb, p in bad][:4], where=where(bad[0][0], bad[0][1]) if bad else None)
     PC.run_posctl(ctx, "E7.unchecked", "unchecked")
+    # ... and a proof with bytes appended is a changed proof: the byte reader takes exactly one representation
+    _exact_len(ctx, P)
+
+
+def _exact_len(ctx, P):
+    from . import codecs as C
+    from .c16 import check_point_reader_exact_len
+
+    ws, rs = C.byte_codec_fns(P)
+    check_point_reader_exact_len(ctx, P, rs, ("ProofOfPossession",))
 
 
 def _concerns(P, f, words):
